@@ -274,6 +274,9 @@ func (s *Server) DidSave(ctx context.Context, params *protocol.DidSaveTextDocume
 func (s *Server) nextDiagnosticsVersion(docURI protocol.DocumentURI) uint64 {
 	s.diagMu.Lock()
 	defer s.diagMu.Unlock()
+	if s.diagVersions == nil {
+		s.diagVersions = make(map[protocol.DocumentURI]uint64)
+	}
 	s.diagVersions[docURI]++
 	return s.diagVersions[docURI]
 }
@@ -332,7 +335,9 @@ func (s *Server) publishDiagnosticsVersion(ctx context.Context, docURI protocol.
 	}
 	resolved, loadErrors := s.loader.LoadFromContent(path, content)
 	verifhook.At("diag.loaded", string(docURI))
-	if !s.ifLatestDiagnostics(docURI, version, func() { s.resolved.Store(docURI, resolved) }) {
+	if !s.ifLatestDiagnostics(docURI, version, func() {
+		s.resolved.Store(docURI, &resolvedEntry{version: version, journal: resolved})
+	}) {
 		return
 	}
 
@@ -517,11 +522,36 @@ func uriToPath(docURI protocol.DocumentURI) string {
 	return filepath.Clean(path)
 }
 
+// resolvedEntry is the include tree of a document together with the diagnostics generation
+// (document version) it was computed from.
+type resolvedEntry struct {
+	version uint64
+	journal *include.ResolvedJournal
+}
+
+// GetResolved returns the include tree of the current text of the document. The tree is
+// normally stored by the background analysis; when that has not finished for the current text
+// yet, the tree is resolved on the spot, so that no answer is computed from an older text.
 func (s *Server) GetResolved(docURI protocol.DocumentURI) *include.ResolvedJournal {
+	var stored *resolvedEntry
 	if r, ok := s.resolved.Load(docURI); ok {
-		if resolved, ok := r.(*include.ResolvedJournal); ok {
+		stored, _ = r.(*resolvedEntry)
+	}
+	version := s.currentDiagnosticsVersion(docURI)
+	if stored != nil && stored.version == version {
+		return stored.journal
+	}
+	if doc, ok := s.GetDocument(docURI); ok && version != 0 {
+		if path := uriToPath(docURI); path != "" {
+			resolved, _ := s.loader.LoadFromContent(path, doc)
+			s.ifLatestDiagnostics(docURI, version, func() {
+				s.resolved.Store(docURI, &resolvedEntry{version: version, journal: resolved})
+			})
 			return resolved
 		}
+	}
+	if stored != nil {
+		return stored.journal
 	}
 	return nil
 }
